@@ -280,6 +280,27 @@ func (x *expander) stmt(s ast.Stmt, next ast.Stmt, depth int) []ast.Stmt {
 				return append(pre, s)
 			}
 		}
+	case *ast.SendStmt:
+		// `ch <- helper(x)`: the value is computed first, like any assigned call
+		if call, ok := ast.Unparen(t.Value).(*ast.CallExpr); ok && isPure(x.info, t.Chan) {
+			if _, exp := x.target(call, depth); exp {
+				if typ := x.info.TypeOf(call); typ != nil {
+					if _, isTuple := typ.(*types.Tuple); !isTuple {
+						x.seq++
+						tmp := types.NewVar(call.Pos(), x.top.Pkg.Types, fmt.Sprintf("inl%d_send", x.seq), typ)
+						def := &ast.Ident{NamePos: call.Pos(), Name: tmp.Name()}
+						x.info.Defs[def] = tmp
+						as := &ast.AssignStmt{Lhs: []ast.Expr{def}, TokPos: call.Pos(), Tok: token.DEFINE, Rhs: []ast.Expr{call}}
+						use := &ast.Ident{NamePos: call.Pos(), Name: tmp.Name()}
+						x.info.Uses[use] = tmp
+						x.info.Types[use] = types.TypeAndValue{Type: typ}
+						t.Value = use
+						x.rewrote = true
+						return x.blockC([]ast.Stmt{as, t}, depth, false, next)
+					}
+				}
+			}
+		}
 	case *ast.ExprStmt:
 		if call, ok := ast.Unparen(t.X).(*ast.CallExpr); ok {
 			pre = x.hoistArgs(call, depth)
